@@ -409,7 +409,9 @@ def gen_topology(rng, ground=None, perturb=True, curves=True):
             for key in ('p1', 'p2'):
                 if rng.random() < 0.3 and not (ground and w[key][2] == 0):
                     d = _unit(rng)
-                    mag = tol * rng.choice([0.3, 0.3, 0.45, 3000.0 if any(x.get('taper') or x['type'] != 'wire' for x in wires) else 3.0])
+                    # "less": below a lower bound of the tolerance; "more": above an upper bound of it (the untapered estimate)
+                    tol_up = 1e-3 * min(math.dist(x['p1'], x['p2']) / x['nseg'] for x in wires if x['type'] == 'wire')
+                    mag = rng.choice([0.3 * tol, 0.3 * tol, 0.45 * tol, rng.choice([1.5, 3.0, 8.0, 30.0]) * tol_up])
                     w[key] = [w[key][i] + d[i] * mag for i in range(3)]
     mode = rng.choice(['none', 'explicit', 'gaps', 'perm', 'mixed'])
     k = len(wires)
